@@ -34,7 +34,9 @@ RULE = (
     "table} started concurrently as tasks on one event loop, on one shared client (v2c; v3 "
     "authPriv primed; v3 authPriv FRESH, i.e. concurrent first use; v3 primed with the device "
     "REBOOTING while requests are in flight) or on two clients (different v3 users on one "
-    "device; the same user on two devices with different engine ids). Every request is parked at the sender seam and a scheduler answers "
+    "device; the same user on two devices with different engine ids); one operation cancelled "
+    "by its caller at a chosen point while the others are in flight; a slow GET left "
+    "unanswered while an 80-request walk goes by. Every request is parked at the sender seam and a scheduler answers "
     "pending requests in a chosen order: all orders are enumerated depth-first for sets whose "
     "schedule tree has <= MAX_ENUM leaves (quick 400, thorough 3000), otherwise sampled "
     "uniformly at each decision. Oracle: each operation's result == its solo result on an "
@@ -62,6 +64,8 @@ DB[BASE + (9, 1, 0)] = ("int", 1)
 DB[BASE + (9, 2, 0)] = ("int", 2)
 for _i in range(6):
     DB[BASE + (99, _i, 0)] = ("int", 0)  # private slots for SETs
+for _i in range(1, 81):
+    DB[BASE + (55, 1, _i)] = ("int", _i)  # a long column: 80 instances
 
 OPKINDS = ("get", "multiget", "getnext", "set", "walk", "bulkwalk", "table", "walk9")
 
@@ -80,6 +84,8 @@ async def do_op(client, kind, slot):
         return [(rig.oid_t(vb.oid), rig.to_tuple(vb.value)) async for vb in client.walk(OID(BASE + (7, 1, 1)))]
     if kind == "walk9":
         return [(rig.oid_t(vb.oid), rig.to_tuple(vb.value)) async for vb in client.walk(OID(BASE + (9,)))]
+    if kind == "longwalk":
+        return [(rig.oid_t(vb.oid), rig.to_tuple(vb.value)) async for vb in client.walk(OID(BASE + (55,)))]
     if kind == "bulkwalk":
         return [(rig.oid_t(vb.oid), rig.to_tuple(vb.value)) async for vb in client.bulkwalk([OID(BASE + (7,))], bulk_size=4)]
     if kind == "table":
@@ -102,6 +108,8 @@ class Parker:
 
 
 CLOCK_MODE = ["stepping"]
+CANCEL = [None]  # (operation index, decision step) - that operation is cancelled there
+SLOW = [None]  # operation index whose requests are answered last
 
 
 async def run_schedule(mode, ops, prefix, rng, events):
@@ -133,6 +141,8 @@ async def run_schedule(mode, ops, prefix, rng, events):
         OPVAR.set(i)
         try:
             results[i] = ("ok", await do_op(client, kind, i))
+        except asyncio.CancelledError:
+            results[i] = ("cancelled", None)
         except Exception as exc:  # noqa: BLE001 - the outcome of the op
             results[i] = ("exc", exc)
 
@@ -160,13 +170,34 @@ async def run_schedule(mode, ops, prefix, rng, events):
     order = []
     step = 0
     reboot_at = len(ops) // 2 if mode == "v3-primed-reboot" else -1
+    cancel_op, cancel_at = CANCEL[0] if CANCEL[0] else (None, -1)
+    slow_op = SLOW[0]
     while True:
         await settle()
         if all(t.done() for t in tasks):
             break
+        if cancel_op is not None and step == cancel_at and not tasks[cancel_op].done():
+            # the caller gives up on ONE operation while everything is in flight
+            tasks[cancel_op].cancel()
+            parker.pending = [p for p in parker.pending if p[0] != cancel_op]
+            cancel_at = -1
+            await settle()
+            if all(t.done() for t in tasks):
+                break
         if not parker.pending:
             raise rig.WouldBlock("operations are blocked on something that is not the sender")
         parker.pending.sort(key=lambda p: p[0])
+        if slow_op is not None:
+            # the slow operation's request is answered only when nothing else is left
+            others = [p for p in parker.pending if p[0] != slow_op]
+            if others:
+                held = [p for p in parker.pending if p[0] == slow_op]
+                parker.pending = others
+                restore = held
+            else:
+                restore = []
+        else:
+            restore = []
         n = len(parker.pending)
         if step < len(prefix):
             choice = prefix[step]
@@ -181,6 +212,7 @@ async def run_schedule(mode, ops, prefix, rng, events):
             # authentic notInTimeWindow report and has to re-synchronise on its own
             agent.reboot()
         op_id, pkt, fut, ip = parker.pending.pop(choice)
+        parker.pending.extend(restore)
         order.append(op_id)
         resp = agents[ip].handle(pkt)
         if resp is None:
@@ -188,7 +220,7 @@ async def run_schedule(mode, ops, prefix, rng, events):
         else:
             fut.set_result(resp)
         step += 1
-        if step > 400:
+        if step > 1500:
             raise rig.BudgetExceeded("schedule too long")
     if mode == "v3-two-engines":
         agent.counters.update(agents["192.0.2.2"].counters)
@@ -239,6 +271,13 @@ def judge(R, case, mode, ops, results, order, agent, clients, events):
     R.mon["requests_answered"] += len(order)
     for i, kind in enumerate(ops):
         got = results.get(i)
+        if CANCEL[0] and CANCEL[0][0] == i:
+            # the cancelled operation itself: cancelled, or finished before that point
+            if got is not None and got[0] not in ("cancelled", "ok"):
+                R.violation(dict(case, order=order), "the cancelled operation %d (%s) ended with %r" % (i, kind, got), None)
+                return False
+            R.mon["ops_cancelled_midway"] += 1
+            continue
         want = solo(mode, kind, i)
         if got is None or got[0] != "ok" or got[1] != want[1]:
             R.violation(dict(case, order=order), "operation %d (%s) got %r under answer order %r; running alone it gets %r" % (i, kind, str(got)[:160], order, str(want[1])[:160]), None)
@@ -268,7 +307,7 @@ def judge(R, case, mode, ops, results, order, agent, clients, events):
 
 def explore(R, mode, ops, max_enum, sample_n, seed, clock="stepping"):
     CLOCK_MODE[0] = clock
-    case = {"mode": mode, "ops": list(ops), "clock": clock}
+    case = {"mode": mode, "ops": list(ops), "clock": clock, "cancel": list(CANCEL[0]) if CANCEL[0] else None, "slow": SLOW[0]}
     stack = [[]]
     runs = 0
     seen = set()
@@ -284,7 +323,7 @@ def explore(R, mode, ops, max_enum, sample_n, seed, clock="stepping"):
         results, trace, order, agent, clients, events = execute(mode, ops, prefix, None)
         runs += 1
         seen.add(tuple(order))
-        R.case(("c14", mode, clock, tuple(ops), tuple(order)), len(order) >= 2, sample={**case, "order": order, "decisions": trace} if runs == 1 and R.evaluations % 7 == 0 else None)
+        R.case(("c14", mode, clock, CANCEL[0], SLOW[0], tuple(ops), tuple(order)), len(order) >= 2, sample={**case, "order": order, "decisions": trace} if runs == 1 and R.evaluations % 7 == 0 else None)
         if not judge(R, dict(case, prefix=prefix), mode, ops, results, order, agent, clients, events):
             return
         for i in range(len(prefix), len(trace)):
@@ -336,6 +375,30 @@ def run(R):
         k += 1
         if R.mine(k):
             explore(R, mode, ops, MAX_ENUM[R.tier], 30, k, clock="frozen")
+    # one operation is cancelled by its caller while the others are in flight
+    for mode, ops in (("v2c", ("get", "walk", "set")), ("v3-fresh", ("get", "get", "set")), ("v3-fresh", ("walk9", "get")), ("v3-primed", ("get", "walk", "set")), ("v3-two-clients", ("get", "set", "getnext"))):
+        for cancel_op in range(len(ops)):
+            for cancel_at in (0, 1, 2):
+                k += 1
+                if not R.mine(k):
+                    continue
+                CANCEL[0] = (cancel_op, cancel_at)
+                try:
+                    explore(R, mode, ops, 40, 6, k, clock=("stepping", "frozen")[k % 2])
+                finally:
+                    CANCEL[0] = None
+    # a slow operation stays unanswered while a long walk (80 requests) goes by
+    for mode in ("v2c", "v3-primed"):
+        for clock in ("stepping", "frozen"):
+            k += 1
+            if not R.mine(k):
+                continue
+            SLOW[0] = 0
+            try:
+                explore(R, mode, ("get", "longwalk"), 1, 0, k, clock=clock)
+                R.mon["slow_get_during_long_walk"] += 1
+            finally:
+                SLOW[0] = None
     for i in range(n):
         k += 1
         if not R.mine(k):
@@ -354,6 +417,8 @@ def replay(R, v):
     c = v["case"]
     ops = tuple(c["ops"])
     CLOCK_MODE[0] = c.get("clock", "stepping")
+    CANCEL[0] = tuple(c["cancel"]) if c.get("cancel") else None
+    SLOW[0] = c.get("slow")
     if "prefix" in c:
         results, trace, order, agent, clients, events = execute(c["mode"], ops, c["prefix"], None)
         R.evaluations += 1
